@@ -16,6 +16,10 @@ pub struct Hyphenator {
     // performing the operation above.
     data: Vec<u8>,
     patterns: trie::Trie,
+    // Scores for the words in the exception list, keyed by the word without hyphens.
+    // A word in the exception list is hyphenated exactly as listed, whatever the patterns say
+    // (TeX.2021.930), so these are looked up before any pattern is considered.
+    exceptions: std::collections::HashMap<String, Vec<u8>>,
 }
 
 /// Implementations of this trait can get the lower case character of a character.
@@ -165,6 +169,7 @@ impl Hyphenator {
         self.data.push(10);
         let value = self.patterns.next(vertex, trie::Edge::EndOfWord).1;
         *value = Some(trie::Value(data_start));
+        self.exceptions.insert(word, indices);
     }
     /// Hyphenate a word, returning it with `-` inserted at each valid break point.
     pub fn hypthenate<L: LowerCaser>(&self, lower_caser: &L, word: &str, target: &mut String) {
@@ -192,6 +197,18 @@ impl Hyphenator {
             .map(|(i, _)| i)
     }
     fn calculate_aggregate_scores<L: LowerCaser>(&self, lower_caser: &L, word: &str) -> Vec<u8> {
+        // Exceptions take precedence over all patterns.
+        let lower_cased: Option<String> = word
+            .chars()
+            .map(|c| lower_caser.to_lower_case(c))
+            .collect();
+        if let Some(scores) = lower_cased.and_then(|w| self.exceptions.get(&w)) {
+            let mut scores = scores.clone();
+            // Never hyphenate before or after the word.
+            scores[0] = 0;
+            scores.truncate(word.chars().count());
+            return scores;
+        }
         let mut scores = vec![0_u8; word.len() + 1];
         self.for_each_pattern(lower_caser, word, |p| {
             let mut k = 0;
